@@ -253,6 +253,14 @@ M['cycle_next_to_knowledge_model_with_the_id_of_a_node'] = TWO + bkm('g', 'p', [
 M['cycle_next_to_service_with_the_id_of_a_node'] = TWO + decision('<literalExpression><text>1</text></literalExpression>', name='o', k='o') + SVC('<outputDecision href="#_o"/>').replace('id="_svc"', 'id="_e"')
 M['cycle_next_to_input_with_the_id_of_a_node'] = TWO + '  <inputData name="y" id="_d"><variable typeRef="number" name="y"/></inputData>\n'
 M['two_elements_of_different_kinds_with_one_id'] = decision('<literalExpression><text>g(x)</text></literalExpression>', extra='<knowledgeRequirement id="_kr"><requiredKnowledge href="#_d"/></knowledgeRequirement>\n    ') + bkm('g', 'p + 1', []).replace('id="_g"', 'id="_d"')
+# size in DEPTH (valid, small, in no shipped example): a linear chain of item definitions nested in each other, a
+# chain of contexts nested in each other as a literal, a chain of decisions requiring each other
+def nested_types(n):
+    defs = ''.join('  <itemDefinition name="t%d" id="_t%d"><itemComponent name="a%d" id="_t%da"><typeRef>%s</typeRef></itemComponent></itemDefinition>\n' % (i, i, i, i, 't%d' % (i + 1) if i + 1 < n else 'number') for i in range(n))
+    return defs + '  <inputData name="y" id="_y"><variable typeRef="t0" name="y"/></inputData>\n' + decision('<literalExpression><text>y.a0 != null</text></literalExpression>', extra='<informationRequirement id="_ry"><requiredInput href="#_y"/></informationRequirement>\n    ')
+M['deep_chain_of_nested_item_definitions_12'] = nested_types(12)
+M['deep_chain_of_nested_item_definitions_24'] = nested_types(24)
+M['deep_chain_of_nested_context_literals_24'] = decision('<literalExpression><text>' + ''.join('{k%d: ' % i for i in range(24)) + 'x' + '}' * 24 + '</text></literalExpression>')
 for name, body in M.items():
     with open(os.path.join(out, name + '.dmn'), 'w') as f:
         f.write(HEAD.format(name=name) + body + '</definitions>\n')
